@@ -63,9 +63,16 @@ Definition write_records (tfs recLen : Z) (rows : list row) : list cmd :=
   | r :: rest => wr_loop tfs recLen (year_of (fst r)) (TimeToIndex tfs (fst r)) (cmd_of tfs recLen r) rest
   end.
 
-(** one stored slot: ((year file, byte offset), (stored index, payload)) *)
-Definition entry := ((Z * Z) * (Z * list byte))%type.
-Record store := mkstore { s_years : list Z; s_data : list entry }.
+(** one stored slot: ((year file, byte offset), (stored index, payload)).  The read path is generic in
+    the payload [A]: row bytes for a fixed bucket; for a variable bucket the slot is the 24-byte
+    {index, offset, len} triple, abstracted to the records it points to (Model/VRead.v). *)
+Definition entryA (A : Type) : Type := ((Z * Z) * (Z * A))%type.
+Definition entry := entryA (list byte).
+Record storeA (A : Type) := mkstore { s_years : list Z; s_data : list (entryA A) }.
+Arguments mkstore {A} _ _.
+Arguments s_years {A} _.
+Arguments s_data {A} _.
+Definition store := storeA (list byte).
 Definition empty_store : store := mkstore [] [].
 
 Definition apply_cmd (s : list entry) (c : cmd) : list entry :=
@@ -103,11 +110,14 @@ Definition plan (tfs recLen rs : Z) (re : option Z) (y : Z) : option (Z * Z) :=
 Definition in_plan (recLen o len off : Z) : bool :=
   (o <=? off) && (off + recLen <=? o + len) && ((off - o) mod recLen =? 0).
 
-Definition stamp (tfs : Z) (e : entry) : row :=
+Section Read.
+Context {A : Type}.
+
+Definition stamp (tfs : Z) (e : entryA A) : Z * A :=
   (IndexToTime (fst (snd e)) tfs (fst (fst e)), snd (snd e)).
 
 (** packed rows of one year file, ascending offset *)
-Definition slot_rows (tfs recLen rs : Z) (re : option Z) (s : list entry) (y : Z) : list row :=
+Definition slot_rows (tfs recLen rs : Z) (re : option Z) (s : list (entryA A)) (y : Z) : list (Z * A) :=
   match plan tfs recLen rs re y with
   | None => []
   | Some (o, len) =>
@@ -121,26 +131,26 @@ Fixpoint insert_year (y : Z) (l : list Z) : list Z :=
   match l with [] => [y] | x :: r => if y <=? x then y :: l else x :: insert_year y r end.
 Definition sort_years (l : list Z) : list Z := fold_right insert_year [] l.
 
-Definition is_some {A} (o : option A) : bool := match o with Some _ => true | None => false end.
+Definition is_some {B} (o : option B) : bool := match o with Some _ => true | None => false end.
 
 (** per-file packed rows of the qualified files, ascending year *)
-Definition file_rows (tfs recLen rs : Z) (re : option Z) (st : store) : list (list row) :=
+Definition file_rows (tfs recLen rs : Z) (re : option Z) (st : storeA A) : list (list (Z * A)) :=
   map (slot_rows tfs recLen rs re (s_data st))
       (filter (fun y => is_some (plan tfs recLen rs re y)) (sort_years (s_years st))).
 
 (** forward scan: after each file, clip the accumulated result to [n] rows and stop *)
-Fixpoint fwd (n : nat) (acc : list row) (files : list (list row)) : list row :=
+Fixpoint fwd (n : nat) (acc : list (Z * A)) (files : list (list (Z * A))) : list (Z * A) :=
   match files with
   | [] => acc
   | f :: r => let acc' := acc ++ f in
               if (n <=? length acc')%nat then firstn n acc' else fwd n acc' r
   end.
 
-Definition lastn {A} (n : nat) (l : list A) : list A := skipn (length l - n) l.
+Definition lastn {B} (n : nat) (l : list B) : list B := skipn (length l - n) l.
 
 (** backward scan over the files in descending year: [left] rows still to fill, [acc] the filled
     right part of the result buffer *)
-Fixpoint bwd (left : nat) (acc : list row) (files_desc : list (list row)) : list row :=
+Fixpoint bwd (left : nat) (acc : list (Z * A)) (files_desc : list (list (Z * A))) : list (Z * A) :=
   match files_desc with
   | [] => acc                                    (* resultBuffer[bytesLeftToFill:] *)
   | f :: r => if (length f <? left)%nat then bwd (left - length f) (f ++ acc) r
@@ -152,8 +162,8 @@ Inductive dir := First | Last.
 Definition max_int32 : Z := 2147483647.
 
 (** QueryService.ExecuteQuery on one fixed bucket.  [lim] = (direction, RowLimit.Number) *)
-Definition query (tfs recLen : Z) (st : store) (rs : Z) (re : option Z) (lim : option (dir * Z))
-  : Res (list row) :=
+Definition query (tfs recLen : Z) (st : storeA A) (rs : Z) (re : option Z) (lim : option (dir * Z))
+  : Res (list (Z * A)) :=
   match s_years st with
   | [] => Rejected                               (* "no files returned from query parse" *)
   | _ =>
@@ -173,6 +183,8 @@ Definition query (tfs recLen : Z) (st : store) (rs : Z) (re : option Z) (lim : o
                  end
       end
   end.
+
+End Read.
 
 (** the all-time query of property C08: start = Unix(0,0), end = planner.MaxTime, no limit *)
 Definition query_all (tfs recLen : Z) (st : store) : Res (list row) := query tfs recLen st 0 None None.
